@@ -6,6 +6,8 @@ import TrionModel.Driver.Trias
 import TrionModel.Driver.Lex
 import TrionModel.Driver.Map
 import TrionModel.Driver.Seg
+import TrionModel.Driver.Scope
+import TrionModel.Driver.Tridas
 /-! `trion-model`: one request per line on stdin, one reply per line on stdout.
 The first word selects the component; every request is self-contained (pure). -/
 open Trion.Driver
@@ -19,6 +21,8 @@ def dispatch : List String → String
   | "lex" :: r => Lex.handle r
   | "map" :: r => Map.handle r
   | "seg" :: r => Seg.handle r
+  | "scope" :: r => Scope.handle r
+  | "tridas" :: r => Tridas.handle r
   | ["ping"] => "pong"
   | _ => "bad-op"
 
